@@ -16,6 +16,30 @@ LEVEL_TEXT = (
 )
 
 CHECKS = {
+    "C04": dict(
+        rules="R04.1-R04.4",
+        what="atomic temporary+os.replace publication and OSError containment in the file store; every MetadataStore.write result checked; no CacheMeta after a failed data write/getmtime; data before meta, provenance of the meta pair, dep_hashes before the meta write, commit after every write group; old meta_ex invalidated before a new meta becomes durable; find_cache_meta treats a missing meta_ex as a miss",
+        quant="kill points and failing store operations",
+        technique="CFG must-pass-through / reachability queries over the cache-writing functions, who-may-write rule",
+        note="Behaviour of sqlite when killed inside commit() and OS-level durability are library/OS behaviour and are not decided. tables/R04.1.json, R04.2.json hold the tabled exceptions.",
+        design="DESIGN.md §4 C04",
+    ),
+    "C07": dict(
+        rules="R07.1-R07.4",
+        what="commit-before-reply in the worker for both phases; readiness gating by not_ready_count and interface-only done marking in the coordinator; agreement of the step sets of the sequential and the two-phase path; commit before the first broadcast",
+        quant="schedules of batches over workers",
+        technique="CFG must-pass-through queries, guard-chain (control dependence) checks, sibling cross-check of step sets",
+        note="Nothing about real interleavings is decided; these are the orderings any schedule relies on. tables/R07.3.json holds the four explained step differences.",
+        design="DESIGN.md §4 C07",
+    ),
+    "C13": dict(
+        rules="R13.1-R13.4",
+        what="blockers never reach the ignore logic; suppressed-by-ignore implies recorded-as-used and nothing else records; who may append to the error map; exit status truth table over (message, non-note, blockers, install override) and its data-flow to sys.exit",
+        quant="programs x ignore placements x code selections",
+        technique="CFG must-pass / reachability, guard chains, who-may-call, abstract evaluation of the exit-status assignments",
+        note="Exactness of the delta for every program (origin spans, duplicate removal, note attachment) is value-level and not decided.",
+        design="DESIGN.md §4 C13",
+    ),
     "C09": dict(
         rules="R09.0-R09.4",
         what="the options snapshot is computed from every name in OPTIONS_AFFECTING_CACHE; every Options attribute read in the RTA call-graph zone of the cached computation is keyed, keyed separately, not settable, or tabled; print-time options are not read while rendering cached tuples; cache directory derives from python_version",
